@@ -346,6 +346,8 @@ def sized_equals_written(fx):
         # adjacent parts that add_segment merges into one segment: their headers are budgeted once
         [('hanzi', None), ('hanzi', None)], [('byte', 'utf-8'), ('byte', 'utf-8'), ('byte', 'utf-8')], [('kanji', None), ('kanji', None)],
         [('alphanumeric', None), ('alphanumeric', None)], [('byte', default_enc), ('byte', default_enc)],
+        # other spellings of the default encoding: whatever the writer decides about the ECI header, the budget decides the same
+        [('byte', 'latin1')], [('byte', 'ISO-8859-1')], [('byte', 'L1'), ('numeric', None)],
     ]
     it0 = Interp(max_steps=50_000_000)
     genv0 = encoder_env(fx.forest, it0, get_eci_assignment_number=lambda enc_: 26)
